@@ -60,6 +60,7 @@ func (m *c19Mon) exit(g int) {
 }
 
 func c19Run(n, rounds int, cancel bool) {
+	useRun := vChoice("api", 0, 1) == 1 // Lock/Unlock or Run
 	l := NewTransientLockMap()
 	mon := &c19Mon{}
 	ctxs := make([]*vTestCtx, n)
@@ -72,6 +73,19 @@ func c19Run(n, rounds int, cancel bool) {
 		g := g
 		vGo(func() {
 			for r := 0; r < rounds; r++ {
+				if useRun {
+					err := l.Run(ctxs[g], keys[g], func(context.Context) error {
+						mon.enter(g, keys[g])
+						vYield()
+						mon.exit(g)
+						return nil
+					})
+					if err != nil {
+						vAssert(ctxs[g].Err() != nil, "run-fails-only-when-context-ended")
+						vReach("c19-cancelled")
+					}
+					continue
+				}
 				if l.Lock(ctxs[g], keys[g]) {
 					mon.enter(g, keys[g])
 					vYield()
